@@ -9,6 +9,7 @@
 From Coq Require Import String List Arith Bool ZArith.
 Import ListNotations.
 From NP Require Import Base Values Arrow Frame Proofs_Pack.
+From NP Require Import Dtype Names Glue Proofs_Glue.
 
 Theorem C09_left_join : forall base_labels t,
   m_add_nested_left base_labels t = Ok (spec_add_nested_left base_labels t).
@@ -41,6 +42,34 @@ Theorem C09_base_row_is_first_occurrence : forall (keys : list Z) (xs : list rec
    exists i, nth_error keys i = Some k /\ nth_error xs i = Some x /\ forall j, j < i -> nth_error keys j <> Some k).
 Proof. intros. apply first_occurrences_spec. assumption. Qed.
 Print Assumptions C09_base_row_is_first_occurrence.
+
+(* from_lists: which columns are packed and which stay (Glue.v mirrors the resolution of base_columns / list_columns): naming
+   only the list columns or only the base columns splits the frame's columns - every column is a list column or a base
+   column, never both, in frame order; naming nothing packs everything; refused exactly when no list column remains *)
+Theorem C09_from_lists_split_by_lists : forall cols l b l',
+  m_from_lists_columns cols None (Some l) = Ok (b, l') ->
+  l' = l /\ b = Some (filter (fun c => negb (mem_str c l)) cols) /\
+  forall c, In c cols -> (mem_str c l = true \/ In c (match b with Some x => x | None => [] end)) /\
+                         ~ (mem_str c l = true /\ In c (match b with Some x => x | None => [] end)).
+Proof. exact from_lists_split_by_lists. Qed.
+Print Assumptions C09_from_lists_split_by_lists.
+
+Theorem C09_from_lists_split_by_base : forall cols b0 b l,
+  m_from_lists_columns cols (Some b0) None = Ok (b, l) ->
+  b = Some b0 /\ l = filter (fun c => negb (mem_str c b0)) cols /\
+  forall c, In c cols -> (mem_str c b0 = true \/ In c l) /\ ~ (mem_str c b0 = true /\ In c l).
+Proof. exact from_lists_split_by_base. Qed.
+Print Assumptions C09_from_lists_split_by_base.
+
+Theorem C09_from_lists_refused : forall cols base lists,
+  m_from_lists_columns cols base lists = Err <->
+  match base, lists with
+  | None, None => cols = []
+  | _, Some l => l = []
+  | Some b, None => forall c, In c cols -> mem_str c b = true
+  end.
+Proof. exact from_lists_refused. Qed.
+Print Assumptions C09_from_lists_refused.
 
 Example C09_nonvacuous :
   m_add_nested_left [2%Z; 7%Z; 3%Z; 3%Z] [(3%Z, [VInt 1]); (1%Z, [VInt 2]); (3%Z, [VInt 3]); (2%Z, [VInt 4])]
